@@ -439,8 +439,10 @@ LITERALS = {"keyword": "abc", "strconst": "'abc'", "boolconst": "true", "numcons
 class Def:
     """one FunctionDefinition of the registry prepared for the sweep"""
 
-    def __init__(self, fd, index, base_ctx):
+    def __init__(self, fd, index, base_ctx, convention=None):
         self.fd, self.index = fd, index
+        self.convention = convention
+        self.no_call = convention is not None
         self.ctx = base_ctx.create_child_context()
         self.ctx.register_function(fd, exclusive=True)
         ps = list(fd.parameters.items())
@@ -453,6 +455,17 @@ class Def:
         self.supported = "unsupported" not in self.kinds.values()
         self.has_lazy = any(k in ("lambda", "expr", "keyword", "strconst", "boolconst", "numconst") for k in self.kinds.values())
         self.operatorish = fd.name.startswith("#") or fd.name.startswith("*")
+
+    def kw(self, p):
+        """the keyword name the caller uses: the registered alias; under a custom convention the convention's
+        PARAMETER conversion of the python name (computed from the convention itself), unless declared explicitly"""
+        if self.convention is None:
+            return p.alias or p.name
+        master = getattr(self.fd.payload, "__yaql_function__", None)
+        for key, q in (master.parameters.items() if master is not None else ()):
+            if q.name == p.name and q.alias:
+                return q.alias
+        return self.convention.convert_parameter_name(p.name.rstrip("_"))
 
     def candidates(self, p):
         kind = self.kinds[p.name]
@@ -473,8 +486,8 @@ class Def:
         return out
 
 
-def registry_defs():
-    base = yaql.create_context()
+def registry_defs(convention=None):
+    base = yaql.create_context(convention=convention) if convention is not None else yaql.create_context()
     out, ctx = [], base
     index = 0
     while ctx is not None:
@@ -483,7 +496,7 @@ def registry_defs():
                                                                   getattr(fd.payload, "__code__", None) and fd.payload.__code__.co_firstlineno or 0,
                                                                   sorted(fd.parameters)))
             for fd in fds:
-                out.append(Def(fd, index, base))
+                out.append(Def(fd, index, base, convention))
                 index += 1
         ctx = ctx.parent
     return out
@@ -538,7 +551,7 @@ def spell_text(d, texts, etexts, k, omitted_as_slots=True):
     for p in d.vis[:k]:
         pos.append(texts.get(p.name, ""))
     pos += etexts
-    kw = ["%s => %s" % (p.alias or p.name, texts[p.name]) for p in d.vis[k:] + d.kwonly if p.name in texts]
+    kw = ["%s => %s" % (d.kw(p), texts[p.name]) for p in d.vis[k:] + d.kwonly if p.name in texts]
     while pos and pos[-1] == "" and not kw:
         pos.pop()
     if pos and pos[-1] == "" and kw:
@@ -590,13 +603,13 @@ def forms(d, assignment, extras, explicit=()):
                        and (assignment.get(p.name) or ["L", "1"])[1] in CONST_LAMBDAS)
                       for p in d.bound) and (d.star is None or d.kinds[d.star.name] == "value" or
                                              all(e[0] == "L" and e[1] in CONST_LAMBDAS for e in extras))
-        if fd.is_function and lazy_ok and fd.name not in ("call", "dict", "#list", "#map", "#get_context_data", "#operator_=>") \
+        if fd.is_function and lazy_ok and not d.no_call and fd.name not in ("call", "dict", "#list", "#map", "#get_context_data", "#operator_=>") \
                 and all((assignment.get(p.name) is not None or p.name in explicit) for p in d.vis[:k]) \
                 and not (nokw and uses_kw):
             def cthunk(k=k):
                 ctx, texts, etexts = make_ctx(d, assignment, extras, explicit)
                 pos = [texts[p.name] for p in d.vis[:k]] + etexts
-                kw = ["%s => %s" % (p.alias or p.name, texts[p.name]) for p in d.vis[k:] + d.kwonly if p.name in texts]
+                kw = ["%s => %s" % (d.kw(p), texts[p.name]) for p in d.vis[k:] + d.kwonly if p.name in texts]
                 text = "call('%s', [%s], dict(%s))" % (fd.name, ", ".join(pos), ", ".join(kw))
                 return evaluate(sweep_engine()(text).expression, ctx)
             out.append(("call() k=%d" % k, cthunk))
@@ -605,7 +618,7 @@ def forms(d, assignment, extras, explicit=()):
 
 def spell_text_method(d, texts, etexts, k):
     pos = [texts.get(p.name, "") for p in d.vis[1:k]] + etexts
-    kw = ["%s => %s" % (p.alias or p.name, texts[p.name]) for p in d.vis[k:] + d.kwonly if p.name in texts]
+    kw = ["%s => %s" % (d.kw(p), texts[p.name]) for p in d.vis[k:] + d.kwonly if p.name in texts]
     while pos and pos[-1] == "" and not kw:
         pos.pop()
     if pos == [""]:
@@ -760,6 +773,53 @@ def oracle(run, deep):
              "result type only): %s" % (sorted(_nondeterministic) or "none"))
     composite_check(run, defs)
     convention_check(run)
+    custom_convention_check(run)
+
+
+def custom_convention_check(run):
+    """conventions whose function-name and parameter-name conversions DIFFER: (a) in fresh interpreters, created before /
+    after the stock conventions: alias census + all spellings of a multi-word-parameter function (harness/
+    c12_custom_conventions.py); (b) in this process: the spelling sweep on a standard library created under such a
+    convention, keyword names translated with the convention's parameter conversion"""
+    import json
+    import os
+    import subprocess
+    import sys
+    import c12_custom_conventions as cc
+    helper = os.path.join(os.path.dirname(os.path.dirname(os.path.abspath(__file__))), "c12_custom_conventions.py")
+    for conv in sorted(cc.CUSTOM):
+        for order in ("custom-first", "stock-first"):
+            try:
+                p = subprocess.run([sys.executable, "-W", "ignore", helper, conv, order], capture_output=True, text=True,
+                                   timeout=300, env=dict(os.environ))
+                problems = json.loads(p.stdout.strip().split("\n")[-1])
+            except Exception as e:
+                run.note("custom convention check (%s, %s) could not be run: %r" % (conv, order, e))
+                continue
+            run.case(("custom-convention", conv, order), nontrivial=True)
+            run.count("custom_convention_orders")
+            if problems:
+                sp = [q for q in problems if q.get("kind") == "spelling"]
+                run.fail("violation", "under a naming convention whose function-name and parameter-name conversions differ, " +
+                         ("keyword / mixed spellings of a call resolve differently from the positional one" if sp else
+                          "the keyword name of a parameter is not the convention's parameter conversion of its python name"),
+                         {"custom_convention": conv, "creation_order": order, "problems": (sp or problems)[:6], "n_problems": len(problems)})
+                return
+    rng = run.rng
+    for conv in sorted(cc.CUSTOM):
+        defs = [d for d in registry_defs(cc.CUSTOM[conv]()) if d.supported]
+        multi = [d for d in defs if any("_" in p.name.rstrip("_") for p in d.bound)]
+        others = [d for d in defs if d not in multi]
+        for d in multi + rng.sample(others, min(run.n(25, 150), len(others))):
+            g = gen_sweep_assignment(rng, d, set())
+            if g is None:
+                continue
+            before = len(run.failures)
+            n = sweep_assignment(run, d, g[0], g[1])
+            run.count("custom_convention_sweep:evaluations", n)
+            if len(run.failures) > before:
+                run.failures[-1].data["custom_convention"] = conv
+                return
 
 
 # ---- the standard library hosted in composite context shapes ------------------------------------------
@@ -886,6 +946,10 @@ def convention_check(run):
 
 def replay(run, data):
     d = data["data"]
+    if "custom_convention" in d:
+        before = len(run.failures)
+        custom_convention_check(run)
+        return len(run.failures) == before
     if "host_shape" in d:
         before = len(run.failures)
         composite_check(run, registry_defs())
